@@ -211,7 +211,7 @@ def order(F, res):
     good = False
     for bi, s in aggs:
         rv = s["rv"]
-        o = mir.provenance(f, du, rv["ops"][rv["fields"].index("constructor")], transparent_extra=("std::option::Option::<T>::ok_or",))
+        o = mir.provenance(f, du, rv["ops"][rv["fields"].index("constructor")], transparent_extra=("std::option::Option::<T>::ok_or", "std::option::Option::<T>::ok_or_else"))
         # the index comes from a `position()` search: either directly (helper inlined) or through a workspace helper
         # (historically TypeDef::find_case_index) whose own body is that search
         for x in o:
